@@ -47,17 +47,27 @@ def _declare_measure(b, D, R, name="u_"):
     b.free(name + "nu", (R, D)); b.free(name + "lb", (R,))
 
 
-def product_case(entry, fkind, update_full, pre, D, R1, R2, timeout=400):
-    cid = f"C04/{entry}/{fkind}/uf{int(update_full)}/{pre}/D{D}R{R1}x{R2}"
-    cfg = dict(op=entry, factor=fkind, update_full=update_full, pre_state=pre, D=D, R1=R1, R2=R2)
+def product_case(entry, fkind, update_full, pre, D, R1, R2, timeout=400, ukind="measure"):
+    """ukind: class of the left operand -- measure | diagmeasure | diagpdf (a diagonal operand times a factor with a
+    non-diagonal precision is NOT diagonal: the lazily inverted result must be a full inverse)"""
+    cid = f"C04/{entry}/{fkind}/uf{int(update_full)}/{pre}/D{D}R{R1}x{R2}" + ("" if ukind == "measure" else f"/u-{ukind}")
+    cfg = dict(op=entry, factor=fkind, update_full=update_full, pre_state=pre, D=D, R1=R1, R2=R2, left_operand=ukind)
 
     def declare(b):
-        _declare_measure(b, D, R1)
+        if ukind == "measure":
+            _declare_measure(b, D, R1)
+        else:
+            declare_factor(b, ukind, "u_", R1, D)
         if entry != "product":
             declare_factor(b, fkind, "f_", R2, D)
 
     def fn(**A):
-        u = _measure(A, pre, D, R1)
+        if ukind == "measure":
+            u = _measure(A, pre, D, R1)
+        else:
+            u = make_factor(ukind, "u_", A, D)
+            if pre == "queried":
+                u.integrate("x"); u.log_integral_light()
         if entry == "product":
             r = u.product()
         else:
@@ -444,6 +454,12 @@ def cases(tier, seed=0):
             out.append(warmcold_case("hadamard", f, uf, 2, 2, 2))
     for pre in PRE:
         out.append(product_case("product", "-", False, pre, 2, 3, 0))
+    # diagonal left operands with factors whose precision is not diagonal (both the eager and the lazy inversion route)
+    for uk in ("diagmeasure", "diagpdf"):
+        for f in ("conjugate", "onerank", "measure", "pdf", "linear"):
+            for uf in (False, True):
+                out.append(product_case("multiply", f, uf, "cold", 2, 2, 1, ukind=uk))
+                out.append(product_case("hadamard", f, uf, "queried", 2, 2, 2, ukind=uk))
     if tier == "thorough":
         for pre in PRE:
             out.append(product_case("multiply", "onerank", True, pre, 3, 1, 2, timeout=1800))
@@ -495,4 +511,5 @@ def cases(tier, seed=0):
     for link, signs in (("exp", None), ("cosh", None), ("step", [1]), ("relu", [1])):
         for (Dx, Dy, Da, Dk) in ((1, 1, 1, 1), (2, 2, 2, 1), (1, 1, 2, 1)):
             out.append(coherence_case(link, Dx, Dy, Da, Dk, signs=signs, prop=PROP))
+        out.append(coherence_case(link, 1, 2, 2, 1, signs=signs, prop=PROP, explicit_Sigma=True))
     return out
